@@ -30,12 +30,20 @@ RULE = ('single species: every configuration that differs from the default speci
         'coefficients, notes, write_date, supp_data, supp_txt, container, read format, newline; lists: '
         'every ordered list of <= 3 (thorough 4) species over a menu of 8 marked species x container x '
         'format x newline, plus long lists up to 200; a case is non-trivial when the written file shows '
-        'at least one feature the default file does not (branch tag)')
+        'at least one feature the default file does not (branch tag); plus explicit families (both tiers): '
+        'coefficients whose nine-digit rounding carries into the next decade in every position, names and notes '
+        'with every punctuation character in first/middle/last position, every printable phase character, '
+        'integer-typed numbers, boundary option values, objects edited in place between two writes')
 ASSUMPTIONS = [
     'field values come from the finite alphabets listed in bounds (placed on every column/width boundary '
     'of the format: 1/2-letter symbols x 1/2/3-digit counts, 15-character names, 6-character temperatures, '
     'both signs and exponent signs of coefficients, half-way rounding)',
-    'species names beginning with "!" are excluded (a comment by definition of the format)',
+    'a species whose name begins with "!" (record 1 would be a Chemkin comment line) may be refused by '
+    'write_thermdat with a ValueError before anything is written; if it is written it must read back like any other',
+    'extra families (both tiers, outside the deviation product): coefficients on the rounding boundary of the printed '
+    'precision in every position, names/notes with every ASCII punctuation character first/middle/last and '
+    'number-like names, every printable phase character, integer-typed coefficients/temperatures, boundary option '
+    'values, species edited in place between two writes',
     'with read format dict and a repeated species name the dictionary cannot hold both; only "every entry is '
     'one of the written species of that name" is required there',
     'supplementary data blocks are well-formed Chemkin entries produced by the reference formatter',
@@ -49,8 +57,9 @@ LEVEL_TEXT = ('Deviation-bounded product enumeration (complete at 0, 1 and 2 dev
               'from a menu of 8 marked species; every file is decoded by an independent fixed-column parser and '
               'by read_thermdat and compared with what was written; each shard first runs a call history in its '
               'fresh process to show that a write/read does not depend on earlier calls.')
-LEVEL_NOTE = ('Finite alphabets on the column/width boundaries of the format; lists up to 200 species; names '
-              'starting with "!" excluded; duplicate names with dict output only checked for "no foreign entry".')
+LEVEL_NOTE = ('Finite alphabets on the column/width boundaries of the format; lists up to 200 species; a name '
+              'starting with "!" may be refused at write time (ValueError, no file); duplicate names with dict output '
+              'only checked for "no foreign entry".')
 TECHNIQUE = ('deviation-bounded exhaustive product enumeration + explicit-state exploration of the reader line '
              'automaton on the implementation, independent fixed-column reference parser as oracle')
 
@@ -242,6 +251,137 @@ def _list_cases(tier):
                        newline=newline)
 
 
+# ------------------------------------------------------------------ extra families (strengthening, both tiers)
+PUNCT = '!"#$%&\'()*+,-./:;<=>?@[\\]^_`{|}~'                    # the 32 ASCII punctuation characters
+PRINTABLE = ''.join(chr(c) for c in range(33, 127))            # the 94 non-blank printable ASCII characters
+# mantissas around the point where rounding to nine significant digits carries into the next decade
+CARRY_MANT = ['9.999999996', '9.9999999951', '9.999999995', '9.999999994', '9.99999999']
+CARRY_DECADES = list(range(-30, 30))
+CARRY_DECADES_RED = [-30, -10, -9, -5, -1, 0, 5, 9, 10, 29]
+NAMES_SPECIAL = ['END!1', 'THERMO!x', 'END!', '!END', '!THERMO', 'END&', 'THERMO/', 'END=1', '0', '1', '2', '3', '4',
+                 '12345678', '1.5E+05', 'E+05', '1E5', '1D5', '-1', '+1', '1.0', '.5', 'nan', 'inf', '100', '1500.0',
+                 '-3.0220493E+04', 'end', 'thermo', 'End', 'G', 'S', 'H', 'He', 'H2O', '1.0000000E+00!',
+                 '!23456789012345', '1!', '1&', '4/']
+NOTES_SPECIAL = ['END', 'THERMO', 'END 1', 'THERMO A', '1', '4', '12345678', '1.5E+05', 'a b', 'a  b c', '1 2 3',
+                 '100 500', ' x', 'x ', '   ', 'G', 'H   2', '!', '!!', 'END!', '! END']
+INT_A = [3, 1, 0, -2, 5, -30220, 2, 4, -1, 7, 0, -3, -30281, 1]
+
+
+def _dflt(**kw):
+    sp = dict(name='H2', elements=[['H', 2, 'int']], phase='G', T=[100.0, 500.0, 1500.0], a=list(A_DEFAULT),
+              notes=None)
+    sp.update(kw)
+    return sp
+
+
+def _mk(m, name, elements, **kw):
+    sp = dict(name=name, elements=elements, phase='G', T=[100.0, 500.0, 1500.0], a=_marked(m), notes=None)
+    sp.update(kw)
+    return sp
+
+
+def _before():
+    return _mk(8, 'CH4', [['C', 1, 'int'], ['H', 4, 'int']], T=[200.0, 1000.0, 3000.0])
+
+
+def _after():
+    return _mk(9, 'PT(S)', [['Pt', 1, 'int']], phase='S', T=[298.15, 1000.05, 9999.9], notes='after')
+
+
+def _xcase(family, species, **opt):
+    c = dict(kind='single' if len(species) == 1 else 'xlist', family=family, species=species, write_date=True,
+             supp_data=None, supp_txt=None, container='list', fmt='list', newline='\n')
+    c.update(opt)
+    return c
+
+
+def _carry_values(decades, mants):
+    return [float('%s%se%d' % (sg, m, e)) for e in decades for sg in ('', '-') for m in mants]
+
+
+def _extra_names():
+    out = []
+    for ch in PUNCT:
+        out += [ch + 'CH2', 'CH' + ch + '2', 'CH2' + ch, ch, 'ABCDEFGHIJKLMN' + ch]
+    out += NAMES_SPECIAL
+    return list(dict.fromkeys(out))
+
+
+def _extra_notes():
+    out = []
+    for ch in PUNCT:
+        out += [ch + 'note', 'no' + ch + 'te', 'note' + ch, ch, 'abcdefg' + ch, 'abcdefgh' + ch]
+    out += NOTES_SPECIAL
+    return list(dict.fromkeys(out))
+
+
+EDITS = [
+    ('name', dict(name='CH3OH')), ('name-keyword', dict(name='END')), ('name-longer', dict(name='ABCDEFGHIJKLMNO')),
+    ('elements-count', dict(elements=[['H', 12, 'int']])),
+    ('elements-added', dict(elements=[['H', 2, 'int'], ['Pt', 123, 'int']])),
+    ('elements-replaced', dict(elements=[['Cu', 1, 'int'], ['O', 2, 'int'], ['N', 3, 'int'], ['C', 4, 'int']])),
+    ('phase', dict(phase='s')), ('T', dict(T=[298.15, 1000.05, 9999.9])),
+    ('a_high[0]', dict(a_edit=[[0, -7.25]])), ('a_low[6]', dict(a_edit=[[13, 1.23456789e-30]])),
+    ('a-all', dict(a_edit=[[k, v] for k, v in enumerate(_marked(5))])),
+    ('notes', dict(notes='edited')),
+]
+
+
+def _extra_cases(tier):
+    """Explicit cases outside the deviation product; the same in both tiers."""
+    # --- A: coefficients on the rounding boundary of the printed precision
+    for k in range(14):                                   # one position deviating
+        for v in _carry_values(CARRY_DECADES_RED, CARRY_MANT[:2]):
+            a = list(A_DEFAULT)
+            a[k] = v
+            yield _xcase('coef-carry:single', [_dflt(a=a)])
+    for k in range(13):                                   # two adjacent fields carry
+        for s0, s1 in itertools.product(('', '-'), repeat=2):
+            a = list(A_DEFAULT)
+            a[k], a[k + 1] = float(s0 + '9.999999996e5'), float(s1 + '9.9999999951e-10')
+            yield _xcase('coef-carry:adjacent', [_dflt(a=a)], write_date=False)
+    vals = _carry_values(CARRY_DECADES, CARRY_MANT)
+    for r in range(len(vals)):                            # every value in every position (rotation)
+        a = [vals[(r + 43 * k) % len(vals)] for k in range(14)]
+        yield _xcase('coef-carry:rotation', [_dflt(a=a)], newline='\r\n' if r % 2 else '\n')
+    # --- B: names with every punctuation character first / middle / last, number-like names, keywords
+    for i, nm in enumerate(_extra_names()):
+        yield _xcase('name', [_dflt(name=nm)])
+        yield _xcase('name', [_dflt(name=nm)], write_date=False)
+        yield _xcase('name', [_before(), _dflt(name=nm), _after()], fmt=['list', 'tuple'][i % 2])
+        yield _xcase('name', [_before(), _dflt(name=nm), _after()], container='dict', fmt='dict', write_date=False)
+    # --- C: notes (written when write_date=False) with the same characters
+    for i, nt in enumerate(_extra_notes()):
+        for nm in ('H2', 'ABCDEFGHIJKLMNO'):
+            yield _xcase('notes', [_before(), _dflt(name=nm, notes=nt), _after()], write_date=False)
+        yield _xcase('notes', [_dflt(notes=nt)], write_date=False, fmt='dict')
+    # --- D: every printable phase character
+    for i, ph in enumerate(PRINTABLE):
+        yield _xcase('phase', [_dflt(phase=ph)])
+        yield _xcase('phase', [_before(), _dflt(phase=ph), _mk(9, 'PT(S)', [['Pt', 1, 'int']], phase=ph.swapcase())],
+                     container=['list', 'dict'][i % 2], fmt=['dict', 'list', 'tuple'][i % 3])
+    # --- E: integer-typed and array-typed numbers
+    for a_type, T_type in itertools.product([None, 'int', 'np-int', 'np-float', 'tuple'],
+                                            [None, 'int', 'np-int', 'np-float']):
+        if a_type is None and T_type is None:
+            continue
+        a = [float(v) for v in INT_A] if a_type in ('int', 'np-int') else list(A_DEFAULT)
+        yield _xcase('typed', [_dflt(a=a, a_type=a_type, T_type=T_type)])
+        yield _xcase('typed', [_before(), _dflt(a=a, a_type=a_type, T_type=T_type), _after()], container='dict')
+    # --- F: boundary values of the options
+    for wd in (True, False, 1, 0):
+        for sd, st, nl in itertools.product([None, 'empty', 'one'], [None, '', '!c'], ['\n', '\r\n', None, '']):
+            if sd in (None, 'one') and st in (None, '!c') and nl in ('\n', '\r\n') and wd in (True, False):
+                continue                                  # already in the deviation product
+            yield _xcase('options', [_dflt(notes='ab12cd34')], write_date=wd, supp_data=sd, supp_txt=st, newline=nl)
+    # --- G: a species edited in place between two writes of the same objects
+    for label, edit in EDITS:
+        for container in ('list', 'dict'):
+            yield dict(kind='edit', family='edit', label=label, species=[_dflt(notes='orig'), _before()], edit=edit,
+                       write_date=(label != 'notes'), supp_data=None, supp_txt=None, container=container, fmt='list',
+                       newline='\n')
+
+
 # ------------------------------------------------------------------ call histories
 def _plain(name, elements, phase='G', T=None, notes=None, m=0):
     return dict(name=name, elements=[[s, n, 'int'] for s, n in elements], phase=phase,
@@ -333,6 +473,16 @@ def bounds(tier):
              long_lists=LONG_QUICK if tier == 'quick' else LONG_THOROUGH,
              containers=['list', 'dict'], read_formats=['list', 'tuple', 'dict'], newlines=['\\n', '\\r\\n'],
              call_histories='%d (one per shard, first thing in a fresh process): call, 1-4 other calls, same call' % N_SHARDS)
+    b['extra_families'] = dict(
+        coefficient_carry=dict(mantissas=CARRY_MANT, decades_every_position_by_rotation=[-30, 29],
+                               decades_single_deviation=CARRY_DECADES_RED, signs=2, positions=14),
+        names=len(_extra_names()), names_rule='each of the 32 ASCII punctuation characters first/middle/last/alone/'
+        'in column 15, number-like names, keyword + punctuation; alone, without date, inside a list of 3',
+        notes=len(_extra_notes()), phases=len(PRINTABLE),
+        typed_inputs=dict(coefficients=['int', 'np-int', 'np-float', 'tuple'], T=['int', 'np-int', 'np-float']),
+        options=dict(write_date=[True, False, 1, 0], supp_data=[None, '', 'one entry'], supp_txt=[None, '', '!c'],
+                     newline=['\\n', '\\r\\n', None, '']),
+        edits_in_place=[e[0] for e in EDITS], cases=sum(1 for _ in _extra_cases(tier)))
     if tier == 'thorough':
         b['deviation_level_3_reduced_coordinates'] = {n: len(v) for n, v in _coords(tier, True)}
     return b
@@ -353,6 +503,8 @@ def _all_cases(tier):
             yield ('s', cr, dev)
     for case in _list_cases(tier):
         yield ('l', None, case)
+    for case in _extra_cases(tier):
+        yield ('x', None, case)
 
 
 def run_shard(shard, ctx):
@@ -370,7 +522,10 @@ def run_shard(shard, ctx):
                 continue
             case = _case_from(co, x) if kind == 's' else x
             _evaluate(case, ctx, env)
-            if kind == 'l' or len(x) >= 2:
+            if kind == 'x':
+                if i % (37 * n) == k:
+                    ctx.sample(case, limit=3)
+            elif kind == 'l' or len(x) >= 2:
                 ctx.sample(case if case['kind'] != 'list' else {q: case[q] for q in case if q != 'species'},
                            limit=2)
     finally:
@@ -418,6 +573,8 @@ def _selftest_reference():
 def _supp_text(key):
     if key is None:
         return None, []
+    if key == 'empty':
+        return '', []
     if key == 'one':
         return ref.format_entry(SUPP_SPECIES[0]) + '\n', [SUPP_SPECIES[0]]
     if key == 'one-nonl':
@@ -443,9 +600,42 @@ def _build(sp):
     els = {}
     for sym, n, typ in sp['elements']:
         els[sym] = _count(n, typ)
-    T = sp['T']
+    T = [_typed_T(v, sp.get('T_type')) for v in sp['T']]
     return Nasa(name=sp['name'], elements=els, phase=sp['phase'], T_low=T[0], T_mid=T[1], T_high=T[2],
-                a_high=list(sp['a'][:7]), a_low=list(sp['a'][7:]), notes=sp['notes'])
+                a_high=_typed_a(sp['a'][:7], sp.get('a_type')), a_low=_typed_a(sp['a'][7:], sp.get('a_type')),
+                notes=sp['notes'])
+
+
+def _typed_T(v, typ):
+    if typ is None:
+        return v
+    if typ == 'int':
+        return _exact_int(v)
+    if typ == 'np-int':
+        return np.int64(_exact_int(v))
+    if typ == 'np-float':
+        return np.float64(v)
+    raise ValueError(typ)
+
+
+def _exact_int(v):
+    if int(v) != v:
+        raise HarnessError('integer-typed case with a non-integral value %r' % (v,))
+    return int(v)
+
+
+def _typed_a(vals, typ):
+    if typ is None:
+        return list(vals)
+    if typ == 'int':
+        return [_exact_int(v) for v in vals]
+    if typ == 'np-int':
+        return np.array([_exact_int(v) for v in vals], dtype=np.int64)
+    if typ == 'np-float':
+        return np.array(vals, dtype=np.float64)
+    if typ == 'tuple':
+        return tuple(vals)
+    raise ValueError(typ)
 
 
 def _expected(sp):
@@ -499,7 +689,33 @@ def _name_class(name):
         c.append('len15')
     if not name.isalnum():
         c.append('punct')
+    if name.startswith('!'):
+        c.append('bang-first')
+    elif '!' in name:
+        c.append('bang')
+    if _number_like(name) and not name.isdigit():
+        c.append('number-like')
     return c
+
+
+def _number_like(text):
+    try:
+        float(text.replace('D', 'E').replace('d', 'e'))
+    except ValueError:
+        return False
+    return True
+
+
+def _phase_class(ph):
+    return ('upper' if ph.isupper() else 'lower' if ph.islower() else 'digit' if ph.isdigit() else 'punct')
+
+
+def _carries(v):
+    """True when rounding v to nine significant digits gives a power of ten that v itself is not."""
+    if v == 0:
+        return False
+    m, e = ('%.8e' % abs(v)).split('e')
+    return m == '1.00000000' and abs(v) != float('1e' + e)
 
 
 def _elem_class(sp):
@@ -519,11 +735,41 @@ def _sig(case, species):
         elems.update(_elem_class(sp))
         if not case['write_date'] and sp['notes'] and ('END' in sp['notes'] or 'THERMO' in sp['notes']):
             notes.add('~END')
-    return dict(kind='single' if case['kind'] == 'single' else 'list',
-                name='+'.join(sorted(names)) or 'plain',
-                elem='+'.join(sorted(elems)) or 'plain',
-                nel=max(len([1 for e in sp['elements'] if e[1] != 0]) for sp in species),
-                notes='+'.join(sorted(notes)) or 'plain')
+        if not case['write_date'] and sp['notes'] and '!' in sp['notes']:
+            notes.add('bang')
+    sig = dict(kind='single' if case['kind'] == 'single' else 'list',
+               name='+'.join(sorted(names)) or 'plain',
+               elem='+'.join(sorted(elems)) or 'plain',
+               nel=max(len([1 for e in sp['elements'] if e[1] != 0]) for sp in species),
+               notes='+'.join(sorted(notes)) or 'plain')
+    # keys below only appear for inputs outside the original alphabets (older signatures stay as they were)
+    phases = set(_phase_class(sp['phase']) for sp in species if sp['phase'] not in PHASES)
+    if phases:
+        sig['phase'] = '+'.join(sorted(phases))
+    if any(_carries(v) for sp in species for v in sp['a']):
+        sig['coef'] = 'carry'
+    typed = sorted(set(t for sp in species for t in (sp.get('a_type'), sp.get('T_type')) if t))
+    if typed:
+        sig['typed'] = '+'.join(typed)
+    opt = _opt_class(case)
+    if opt:
+        sig['opt'] = opt
+    if case['kind'] == 'edit':
+        sig['edit'] = case['label']
+    return sig
+
+
+def _opt_class(case):
+    c = []
+    if case['supp_data'] == 'empty':
+        c.append('supp_data-empty')
+    if case['supp_txt'] == '':
+        c.append('supp_txt-empty')
+    if case['newline'] in (None, ''):
+        c.append('newline-' + ('none' if case['newline'] is None else 'empty'))
+    if case['write_date'] is not True and case['write_date'] is not False:
+        c.append('write_date-int')
+    return '+'.join(c)
 
 
 def _species_of(case):
@@ -535,7 +781,58 @@ def _species_of(case):
 def _evaluate(case, ctx, env):
     species = _species_of(case)
     sig = _sig(case, species)
-    ctx.run_case(lambda c, x: _evaluate_inner(c, x, env, species, sig), case, sig)
+    if case['kind'] == 'edit':
+        ctx.run_case(lambda c, x: _evaluate_edit(c, x, env, species, sig), case, sig)
+    else:
+        ctx.run_case(lambda c, x: _evaluate_inner(c, x, env, species, sig), case, sig)
+
+
+def _edited(sp, edit):
+    """Species description after the edit (a new dict)."""
+    new = json.loads(json.dumps(sp))
+    for k, v in edit.items():
+        if k == 'a_edit':
+            for pos, val in v:
+                new['a'][pos] = val
+        else:
+            new[k] = v
+    return new
+
+
+def _edit_in_place(obj, edit):
+    """The same edit applied to the live Nasa object through its public attributes, in place where possible."""
+    for k, v in edit.items():
+        if k == 'a_edit':
+            for pos, val in v:
+                if pos < 7:
+                    obj.a_high[pos] = val
+                else:
+                    obj.a_low[pos - 7] = val
+        elif k == 'elements':
+            obj.elements.clear()
+            for sym, n, typ in v:
+                obj.elements[sym] = _count(n, typ)
+        elif k == 'T':
+            obj.T_low, obj.T_mid, obj.T_high = v
+        else:
+            setattr(obj, k, v)
+
+
+def _evaluate_edit(case, ctx, env, species, sig):
+    """write+read, edit the first species object in place, write+read the same objects again."""
+    objs = [_build(sp) for sp in species]
+    coll = _collection(objs, case)
+    _evaluate_inner(case, ctx, env, species, sig, objs=objs, coll=coll, stage=1)
+    _edit_in_place(objs[0], case['edit'])
+    species2 = [_edited(species[0], case['edit'])] + list(species[1:])
+    ctx.tag('edit:in-place')
+    ctx.trans()
+    _evaluate_inner(case, ctx, env, species2, sig, objs=objs, coll=coll, stage=2)
+    # the second file must be the file of freshly built objects with the new content
+    fresh = _write([_build(sp) for sp in species2], case, None)
+    again = _write(objs, case, None, coll=coll)
+    ctx.true(C_E1, again == fresh, sig, case, observed=case['label'],
+             expected='text of the edited objects == text of new objects with the same content')
 
 
 DEFAULT_TAGS = {'date:on', 'notes:none', 'container:list', 'fmt:list', 'newline:lf'}
@@ -557,6 +854,12 @@ def _observe_tags(case, raw, parsed, species):
             tags.add('name:len15')
         if not nm.isalnum():
             tags.add('name:punct')
+        if '!' in nm[1:]:
+            tags.add('name:bang-inside')
+        if _number_like(nm) and not nm.isdigit():
+            tags.add('name:number-like')
+        if sp['phase'] not in PHASES and sp['phase'] != ' ':
+            tags.add('phase:' + _phase_class(sp['phase']))
         for s, n in sp['elements']:
             tags.add('elem:sym%d-count%d' % (len(s), len(str(n))))
         if len(sp['elements']) == 4:
@@ -583,6 +886,14 @@ def _observe_tags(case, raw, parsed, species):
             tags.add('elem:np.int64-count')
         if any(v == 1.000000005 for v in sp['a']):
             tags.add('coef:half-way-rounding')
+        if any(_carries(v) for v in sp['a']):
+            tags.add('coef:carry-to-next-decade')
+        if sp.get('a_type') in ('int', 'np-int'):
+            tags.add('typed:int-coefficients')
+        if sp.get('T_type') in ('int', 'np-int'):
+            tags.add('typed:int-T')
+        if not case['write_date'] and sp['notes'] and '!' in sp['notes'][:8]:
+            tags.add('notes:bang')
         if not case['write_date']:
             nt = sp['notes']
             tags.add('notes:none' if nt is None else 'notes:empty' if nt == '' else
@@ -590,6 +901,9 @@ def _observe_tags(case, raw, parsed, species):
             if nt and 'END' in nt:
                 tags.add('notes~END')
     tags.add('date:on' if case['write_date'] else 'date:off')
+    for o in _opt_class(case).split('+'):
+        if o:
+            tags.add('opt:' + o)
     if case['supp_data'] is not None:
         tags.add('supp_data')
         if case['supp_data'] == 'one-nonl':
@@ -618,7 +932,11 @@ PLANNED_TAGS = ['name~END', 'name~THERMO', 'name:digit-first', 'name:len15', 'na
                 'notes~END', 'date:on', 'date:off', 'supp_data', 'supp_data:no-trailing-newline', 'supp_txt',
                 'container:list', 'container:dict', 'fmt:list', 'fmt:tuple', 'fmt:dict', 'newline:lf',
                 'newline:crlf', 'list:repeated-name', 'list:200', 'list:keyword-name-first',
-                'list:keyword-name-after-another', 'history:repeat-after-1-calls', 'history:repeat-after-4-calls']
+                'list:keyword-name-after-another', 'history:repeat-after-1-calls', 'history:repeat-after-4-calls',
+                'name:bang-inside', 'name:bang-first', 'name:number-like', 'phase:lower', 'phase:digit', 'phase:punct',
+                'coef:carry-to-next-decade', 'typed:int-coefficients', 'typed:int-T', 'notes:bang',
+                'opt:supp_data-empty', 'opt:supp_txt-empty', 'opt:newline-none', 'opt:newline-empty',
+                'opt:write_date-int', 'edit:in-place', 'reread:after-editing-the-first-result']
 
 C_L1 = 'layout: every line is a header/comment/END line or an 80-column record numbered 1-4 in column 80, in sequence'
 C_L2 = 'layout: fixed-column parser finds as many species in the text as were written'
@@ -634,17 +952,41 @@ C_R4 = 'read: 14 coefficients equal to 9 significant digits'
 C_R5 = 'read: CpoR/HoRT/SoR of the read species agree with the written species'
 C_R6 = 'read: result container follows format (list/tuple/dict keyed by name)'
 C_D1 = 'differential: species read inside a collection equals the same species written alone'
+C_W1 = 'refusal: a write refused because of a name starting with "!" raises for file and text alike and leaves no file'
+C_K1 = "caller's data: the species objects and the collection passed to write_thermdat are unchanged afterwards"
+C_F1 = 'fresh: a second read of the same file equals the first after the first result was edited in place'
+C_F2 = 'fresh: editing the read result changes neither the written objects nor the text of a second write'
+C_E1 = 'edit: the second write of objects edited in place is the file of their new content'
 
 
-def _write(objs, case, filename):
+def _collection(objs, case):
+    if case['container'] == 'dict':
+        return {'k%d' % i: o for i, o in enumerate(objs)}
+    return list(objs)
+
+
+def _write(objs, case, filename, coll=None):
     from pmutt.io.thermdat import write_thermdat
     supp, _ = _supp_text(case['supp_data'])
-    if case['container'] == 'dict':
-        coll = {'k%d' % i: o for i, o in enumerate(objs)}
-    else:
-        coll = list(objs)
+    if coll is None:
+        coll = _collection(objs, case)
     return write_thermdat(coll, filename=filename, write_date=case['write_date'], supp_data=supp,
                           supp_txt=case['supp_txt'], newline=case['newline'])
+
+
+def _snap(obj):
+    """Everything write_thermdat may look at, with types (to compare an object before and after a call)."""
+    def arr(a):
+        return [type(a).__name__, str(getattr(a, 'dtype', '')), [repr(v) for v in a]]
+    return dict(name=obj.name, phase=obj.phase, notes=obj.notes,
+                elements=[[k, repr(v)] for k, v in obj.elements.items()],
+                T=[repr(obj.T_low), repr(obj.T_mid), repr(obj.T_high)], a_high=arr(obj.a_high), a_low=arr(obj.a_low))
+
+
+def _snap_coll(coll):
+    if isinstance(coll, dict):
+        return ['dict', [[k, id(v)] for k, v in coll.items()]]
+    return [type(coll).__name__, [id(v) for v in coll]]
 
 
 def _alone(sp, case, env):
@@ -659,21 +1001,48 @@ def _alone(sp, case, env):
     return env.alone[key]
 
 
-def _evaluate_inner(case, ctx, env, species, sig):
+def _evaluate_inner(case, ctx, env, species, sig, objs=None, coll=None, stage=None):
     from pmutt.io.thermdat import read_thermdat
-    objs = [_build(sp) for sp in species]
+    if objs is None:
+        objs = [_build(sp) for sp in species]
+    if coll is None:
+        coll = _collection(objs, case)
     _, supp_species = _supp_text(case['supp_data'])
     expected = [_expected_supp(s) for s in supp_species] + [_expected(sp) for sp in species]
     n_supp = len(supp_species)
+    snap = [[_snap(o) for o in objs], _snap_coll(coll)]
+    extra = case.get('family') is not None
 
     # ---- write (file and string)
-    _write(objs, case, env.path)
-    text_ret = _write(objs, case, None)
+    if any(sp['name'].startswith('!') for sp in species):
+        # record 1 of such a species is a comment line of the format: the writer may refuse it (ValueError, nothing
+        # written); if it writes, everything below applies as for any other name
+        ctx.tag('name:bang-first')
+        if os.path.exists(env.path):
+            os.remove(env.path)
+        refused = []
+        for fn in (env.path, None):
+            try:
+                _write(objs, case, fn, coll=coll)
+            except ValueError:
+                refused.append(fn)
+        if refused:
+            ctx.trace()
+            ctx.state(dict(case))
+            ctx.nontrivial(dict(case))
+            ctx.true(C_W1, len(refused) == 2 and not os.path.exists(env.path), sig, case,
+                     observed=[len(refused), os.path.exists(env.path)], expected=[2, False])
+            ctx.true(C_K1, [[_snap(o) for o in objs], _snap_coll(coll)] == snap, sig, case)
+            ctx.refuse('write_thermdat refuses a species name starting with "!" (record 1 would be a comment line)')
+            return
+    _write(objs, case, env.path, coll=coll)
+    text_ret = _write(objs, case, None, coll=coll)
     ctx.trace()
     with open(env.path, 'rb') as f:
         raw = f.read()
     image = raw.decode('ascii')
-    ok6 = ctx.true(C_L6, isinstance(text_ret, str) and image == text_ret.replace('\n', case['newline']), sig, case,
+    nl = case['newline'] if case['newline'] else '\n'        # None / '' : no translation of the '\n' written
+    ok6 = ctx.true(C_L6, isinstance(text_ret, str) and image == text_ret.replace('\n', nl), sig, case,
                    observed=len(image), expected='file image == returned text with the requested newline')
 
     # ---- oracle 1: independent fixed-column parser on the written text
@@ -683,8 +1052,10 @@ def _evaluate_inner(case, ctx, env, species, sig):
     for t in tags:
         ctx.tag(t)
     key = dict(case) if case['kind'] != 'list' else {q: case[q] for q in case if q != 'species'}
+    if stage is not None:
+        key['stage'] = stage
     ctx.state(key)
-    if case['kind'] != 'single':
+    if case['kind'] in ('list', 'long'):
         ids = case.get('ids') or ['long%d' % case['n']]
         for i in range(len(ids) if case['kind'] == 'list' else 1):
             for rec in (1, 2, 3, 4):
@@ -701,6 +1072,7 @@ def _evaluate_inner(case, ctx, env, species, sig):
     # ---- oracle 2: read_thermdat
     res = read_thermdat(env.path, format=case['fmt'])
     ctx.evals()
+    ctx.true(C_K1, [[_snap(o) for o in objs], _snap_coll(coll)] == snap, sig, case)
     names_exp = [p['name'] for p in expected]
     fmt = case['fmt']
     if fmt == 'dict':
@@ -750,6 +1122,29 @@ def _evaluate_inner(case, ctx, env, species, sig):
             ctx.close(C_R5, obs, exp, sig, case, rtol=1e-8, atol=0.0, scale=list(mags))
         if len(species) > 8:
             break                                   # long lists: first species only (the rest by coefficients)
+
+    # ---- second read / fresh results (extra families only: one more read and write per case)
+    if extra:
+        for o in seq:
+            o.name = str(o.name) + 'x'
+            o.phase = 'Q'
+            o.elements['Zz'] = 7
+            o.a_high[0] += 1.0
+            o.a_low[6] = -o.a_low[6] - 1.0
+            o.T_mid = o.T_mid + 1.0
+        if isinstance(res, dict):
+            res['zz'] = None
+        elif isinstance(res, list):
+            res.append(None)
+        res2 = read_thermdat(env.path, format=fmt)
+        ctx.evals()
+        ctx.tag('reread:after-editing-the-first-result')
+        seq2 = list(res2.values()) if isinstance(res2, dict) else list(res2)
+        ctx.true(C_F1, type(res2) is type(res) and [_proj_nasa(o) for o in seq2] == got, sig, case,
+                 observed=len(seq2), expected='same container type and the same species as the first read')
+        text3 = _write(objs, case, None, coll=coll)
+        ctx.true(C_F2, text3 == text_ret and [[_snap(o) for o in objs], _snap_coll(coll)] == snap, sig, case,
+                 observed=len(text3), expected='second write == first write; written objects untouched')
 
     # ---- oracle 3: differential, only when the file holds more than one species
     if len(expected) > 1 and case['kind'] != 'long':
